@@ -1,8 +1,9 @@
 (* C16 — executable side of the correspondence check: the case types written by the Go harness
-   (harness/overlay/p2p/conn/verif_c16_conn_test.go, .../verif_c16_fault_test.go,
+   (harness/overlay/p2p/conn/verif_c16_conn_test.go, .../verif_c16_fault_test.go, .../verif_c16_coalesce_test.go,
    harness/overlay/p2p/verif_c16_upgrade_test.go),
    the comparison of the model with what the implementation returned, and the property monitors
-   evaluated on the implementation's own answers.  Depends on Model.v only.
+   evaluated on the implementation's own answers.  Depends on Model.v and ModelAuth.v (definitions,
+   no proofs) only.
 
    The model cannot run ChaCha20-Poly1305, X25519, merlin, HKDF or ed25519.  It is run with
    *symbolic* instances: a sealed frame is the term [Sym key-id nonce plaintext] (opens only
@@ -10,7 +11,7 @@
    real code is [Junk].  The harness tells, for every 1044-byte block it lets the reader see,
    which sealed frame it is byte-for-byte (table lookup) or that it is none. *)
 From Coq Require Import String List ZArith NArith Bool.
-From TM Require Import Common.Hex Generated.Consts C16.Model.
+From TM Require Import Common.Hex Generated.Consts C16.Model C16.ModelAuth.
 Import ListNotations.
 Open Scope Z_scope.
 
@@ -58,6 +59,17 @@ Inductive case :=
 (* frame layout: one Write of [data] from nonce [send0]; for every sealed frame the length of
    the sealed frame, the length of its plaintext and the first 4+chunk bytes of the plaintext *)
 | CFrame (send0 : string) (data : string) (frames_i : list (Z * Z * string))
+(* a wire-compatible peer that does not size its Writes as the Go code does (harness
+   verif_c16_coalesce_test.go): it performs the handshake by hand with the package's helpers and
+   calls sc.Write on its end with [peer_writes] from the zero nonce; their concatenation is the
+   delimited AuthSigMessage [auth] followed by application data - message and data in one Write
+   (one sealed frame), the message split over two Writes, ...  The honest side runs the real
+   MakeSecretConnection over the untouched wire (closed after the last frame), then Reads.
+   hs_ok: it accepted and RemotePubKey() is the peer's key; buf_i = len(sc.recvBuffer) and
+   recv_i = the counter of sc.recvNonce when MakeSecretConnection returned; reads: buffer size, n,
+   error class (as in readt), bytes returned. *)
+| CCoalesce (hs_ok : bool) (auth : string) (peer_writes : list string) (buf_i recv_i : Z)
+            (reads : list (Z * Z * N * string))
 (* handshake of the real MakeSecretConnection (victim) against a scripted peer.
    eph: 0 peer sends the ephemeral key it uses, 1 a low-order point, 2 a key it does not use
    (other ephemeral), 3 its key truncated to [ephlen] bytes, 4 nothing (EOF), 5 not a BytesValue,
@@ -478,6 +490,42 @@ Definition check (c : case) : verdict :=
             | None, None => true
             | Some a, Some b => bytes_eqb a (unhex b)
             | _, _ => false end) 15 ]
+  | CCoalesce hs_ok auth peer_writes buf_i recv_i reads =>
+    let ws := map unhex peer_writes in
+    let authb := unhex auth in
+    let stream := concat ws in
+    let data := skipn (List.length authb) stream in
+    let mw := run_writes N scipher sseal no_stale 0%N (nonce_of_ctr 0) ws in
+    let conn := map (@EvBlock scipher) (flat_map (fun w => w_sent w) mw) in
+    let '(st1, body, conn1) :=
+      read_delimited N scipher sopen 0%N {| r_buf := []; r_nonce := nonce_of_ctr 0 |} conn in
+    let '(mrs, _, _) := run_reads N scipher sopen 0%N st1 conn1
+                          (map (fun '(cp, _, _, _) => Z.to_nat cp) reads) in
+    let rdata := fun (r : Z * Z * N * string) => let '(_, _, _, d) := r in unhex d in
+    let rerr := fun (r : Z * Z * N * string) => let '(_, _, e, _) := r in e in
+    let all_data := flat_map rdata reads in
+    first_of [
+      (* 8: a peer that follows the protocol on the wire is accepted and identified *)
+      viol hs_ok 8;
+      (* 1: what the Reads return, concatenated, is a prefix of the bytes the peer wrote behind
+         its AuthSig message - across the handshake / data boundary *)
+      viol (is_prefix all_data data) 1;
+      viol (forallb (fun '(cp, n, _, d) => (0 <=? n) && (n <=? cp) &&
+                                           (n =? Z.of_nat (List.length (unhex d)))) reads) 1;
+      (* 2: the wire is untouched: an error is seen only once every byte has been returned *)
+      viol (negb (existsb (fun r => negb (rerr r =? 0)%N) reads)
+            || (Z.of_nat (List.length all_data) =? Z.of_nat (List.length data))) 2;
+      (* harness sanity: the peer's Writes begin with the delimited message *)
+      mism (is_prefix authb stream) 23;
+      (* model vs implementation: the message body the delimited reader extracts, the reader's
+         state when the handshake is over, every Read *)
+      mism (match body with
+            | Some b => bytes_eqb (put_uvarint (N.of_nat (List.length b)) ++ b) authb
+            | None => false end) 23;
+      mism (buf_i =? Z.of_nat (List.length (r_buf st1))) 24;
+      mism (recv_i =? Z.of_N (ctr_of_nonce (r_nonce st1))) 24;
+      mism (list_eqb2 (fun (a : rres) (r : Z * Z * N * string) =>
+                         (rcode a =? rerr r)%N && bytes_eqb (rres_data a) (rdata r)) mrs reads) 25 ]
   | CFrame send0 data frames_i =>
     let w := write N scipher sseal no_stale 0%N (unhex send0) (unhex data) in
     first_of [
